@@ -574,38 +574,22 @@ func coqJ(n *jn) string {
 }
 
 // coqNativeBody renders the parsed native body (what the modelled functions
-// receive): attributes in source order, blocks in order. Only the body of a
-// `dynamic` block is encoded (as a JSON-like value, marked "#native").
+// receive): attributes in source order, blocks in order. The body of every
+// block is carried as an encoding (see BodyCheck.v, decode_child).
 func coqNativeBody(b *hclsyntax.Body) string {
-	type na struct {
-		name string
-		pos  int
-	}
-	var as []na
-	for n, a := range b.Attributes {
-		as = append(as, na{n, a.NameRange.Start.Byte})
-	}
-	sort.Slice(as, func(i, j int) bool { return as[i].pos < as[j].pos })
+	as := sortedAttrs(b)
 	attrs := make([]string, len(as))
 	for i, a := range as {
-		attrs[i] = fmt.Sprintf("At %s %d", hv.CoqString(a.name), i)
+		attrs[i] = fmt.Sprintf("At %s %d", hv.CoqString(a), i)
 	}
 	blocks := make([]string, len(b.Blocks))
 	for i, bl := range b.Blocks {
-		body := "JNull"
-		if bl.Type == "dynamic" {
-			body = "(" + coqJ(encodeNativeSpec(bl.Body)) + ")"
-		}
-		blocks[i] = fmt.Sprintf("Bk %s %s %s", hv.CoqString(bl.Type), coqStrList(bl.Labels), body)
+		blocks[i] = fmt.Sprintf("Bk %s %s (%s)", hv.CoqString(bl.Type), coqStrList(bl.Labels), coqJ(encodeNativeBody(bl.Body, bl.Labels)))
 	}
 	return fmt.Sprintf("Nt %s %s", hv.CoqList(attrs), hv.CoqList(blocks))
 }
 
-// encodeNativeSpec encodes the body of a native `dynamic` block: its
-// attributes (for_each: array with one element per iteration; labels: array
-// of strings; others: a number) and its blocks (content: an object).
-func encodeNativeSpec(b *hclsyntax.Body) *jn {
-	m := []jm{{"#native", jnull()}}
+func sortedAttrs(b *hclsyntax.Body) []string {
 	type na struct {
 		name string
 		pos  int
@@ -615,8 +599,24 @@ func encodeNativeSpec(b *hclsyntax.Body) *jn {
 		as = append(as, na{n, a.NameRange.Start.Byte})
 	}
 	sort.Slice(as, func(i, j int) bool { return as[i].pos < as[j].pos })
-	for _, a := range as {
-		expr := b.Attributes[a.name].Expr
+	out := make([]string, len(as))
+	for i, a := range as {
+		out[i] = a.name
+	}
+	return out
+}
+
+// encodeNativeBody encodes a native block body: marker, the block's labels,
+// then attributes (a tuple constructor becomes an array whose string elements
+// are kept, anything else a number) and nested blocks (objects, same encoding).
+func encodeNativeBody(b *hclsyntax.Body, labels []string) *jn {
+	var ls []*jn
+	for _, l := range labels {
+		ls = append(ls, jstr(l))
+	}
+	m := []jm{{"#native", jnull()}, {"#labels", jarr(ls)}}
+	for _, name := range sortedAttrs(b) {
+		expr := b.Attributes[name].Expr
 		val := jnum(0)
 		if t, ok := expr.(*hclsyntax.TupleConsExpr); ok {
 			var es []*jn
@@ -630,10 +630,10 @@ func encodeNativeSpec(b *hclsyntax.Body) *jn {
 			}
 			val = jarr(es)
 		}
-		m = append(m, jm{a.name, val})
+		m = append(m, jm{name, val})
 	}
 	for _, bl := range b.Blocks {
-		m = append(m, jm{bl.Type, jobj(nil)})
+		m = append(m, jm{bl.Type, encodeNativeBody(bl.Body, bl.Labels)})
 	}
 	return jobj(m)
 }
